@@ -255,13 +255,39 @@ def _gen_invariance(seed, cfg):
     k = r.randint(6, 20)
     timeline = []
     tz = 'UTC0'
-    for ns in _anchor_instants(r, k):
+    # the second simulated dimension: evaluation / override history.  Between two instants a client may edit
+    # cells the criteria and ranges read (Executor.set_cells); the used executor must then answer like a
+    # pristine one given the same overrides.  Drawn from its own stream so the timelines stay what they were.
+    rh = core.rng(seed, 'clocksim', 'invariance', 'history')
+    history = rh.random() < 0.5 if 'history' not in cfg.get('swarm', {}) else cfg['swarm']['history']
+    swarm['history'] = history
+    cells = spec['sheets'][0]['cells']
+    rows = 1 + max(wbgen.parse_a1(k_)[1] for k_ in cells if not k_.startswith(('A', 'F')))
+    single_refs = sorted(set(m.group(1) + m.group(2) for v in cells.values() if isinstance(v, str) and v.startswith('=')
+                             for m in re.finditer(r'(?<![A-Z:$])([B-E])(\d+)(?![:\d])', re.sub(r'"[^"]*"', '""', v))))
+    pool_txt = SAFE_TEXT + (DATELIKE_TEXT if swarm['datelike'] else [])
+    for i, ns in enumerate(_anchor_instants(r, k)):
         if swarm['tz_changes'] and r.random() < 0.4:
             tz = r.choice(FIXED_TZ)
         step = 0
         if swarm['auto_advance'] and r.random() < 0.5:
             step = r.choice([1, 60, 3600, 6 * 3600]) * 10**9
-        timeline.append({'ns': ns, 'tz': tz, 'step_ns': step})
+        ent = {'ns': ns, 'tz': tz, 'step_ns': step}
+        if history:
+            if i and rh.random() < 0.45:
+                sets = []
+                for _ in range(rh.choice([1, 1, 2, 3])):
+                    if single_refs and rh.random() < 0.6:
+                        cc, rr = wbgen.parse_a1(rh.choice(single_refs))       # a cell some criterion is built from
+                    else:
+                        cc, rr = rh.randint(1, 4), rh.randrange(rows)
+                    v = rh.choice([rh.randint(0, 31), rh.choice([0, 1, 5, 29, 30, 31, 2.5]), rh.choice(pool_txt), rh.choice(pool_txt)])
+                    sets.append({'tg': [cc, rr], 'v': v})
+                ent['set'] = sets
+            ent['perm'] = rh.randrange(1 << 30) if rh.random() < 0.5 else 0
+            if rh.random() < 0.25:
+                ent['repeat'] = True          # evaluate everything twice at this instant
+        timeline.append(ent)
     return {'engine': NAME, 'mode': 'invariance', 'seed': seed, 'swarm': swarm, 'spec': spec, 'n_formulas': n, 'timeline': timeline}
 
 
@@ -303,6 +329,22 @@ def _exec_invariance(plan):
     feats = set()
     sim_time = 0.0
     prev = None
+    omap = {}                  # (col,row) -> constant most recently supplied through set_cells
+    epoch = 0                  # number of set events so far
+    history = any(('set' in t or t.get('perm') or t.get('repeat')) for t in plan['timeline'])
+    mism = []
+
+    def evaluate(executor, t, cc, rr):
+        simclock.set_ns(t['ns'])
+        simclock.set_step_ns(t['step_ns'])
+        r0 = simclock.reads()
+        try:
+            out = outcome_of_value(executor.get_cell(Cell(0, cc, rr)).value)
+        except Exception as e:
+            out = outcome_of_exc(e)
+        simclock.set_step_ns(0)
+        return out, simclock.reads() - r0
+
     for ti, t in enumerate(plan['timeline']):
         simclock.set_tz(t['tz'])
         simclock.set_step_ns(0)
@@ -325,38 +367,81 @@ def _exec_invariance(plan):
             if t['tz'] != prev['tz']:
                 probe('tz_changed')
         prev = t
-        row = {}
-        for k, cc, rr in cells:
-            simclock.set_ns(t['ns'])
-            simclock.set_step_ns(t['step_ns'])
-            r0 = simclock.reads()
+        if t.get('set'):
+            batch = []
+            for c in t['set']:
+                cc, rr = c['tg']
+                if (cc, rr) in omap:
+                    probe('criteria_cell_overridden_again')
+                omap[(cc, rr)] = c['v']
+                batch.append(Cell(0, cc, rr, dec_value(c['v'])))
             try:
-                out = outcome_of_value(ex.get_cell(Cell(0, cc, rr)).value)
+                ex.set_cells(batch)
+                set_out = ['ok']
             except Exception as e:
-                out = outcome_of_exc(e)
-            simclock.set_step_ns(0)
-            nreads = simclock.reads() - r0
-            after = t['ns'] + nreads * t['step_ns']
-            if t['step_ns'] and nreads >= 2 and local_date(t['tz'], after) != ld:
-                probe('midnight_crossed_inside_one_evaluation')
-                feats.add('midnight-inside')
-            if nreads and not _has_today(spec['sheets'][0]['cells'][k]):
-                probe('cell_without_TODAY_reads_the_clock')
-            row[k] = [out, nreads]
-        log.append({'t': ti, 'date': ld.isoformat(), 'row': row})
-    # oracle: identical outcome at all instants for every cell without TODAY()
-    mism = []
+                set_out = outcome_of_exc(e)
+                mism.append({'key': 'set-raised', 'cell': '', 'formula': '', 'instants': [ti, ti], 'dates': [ld.isoformat()] * 2,
+                             'observed': set_out, 'expected': ['ok']})
+            epoch += 1
+            probe('override_between_two_instants')
+            feats.add('override')
+        order = list(cells)
+        if t.get('perm'):
+            core.rng(t['perm'], 'perm').shuffle(order)
+            probe('query_order_permuted')
+        row = {}
+        for rep in range(2 if t.get('repeat') else 1):
+            for k, cc, rr in order:
+                out, nreads = evaluate(ex, t, cc, rr)
+                after = t['ns'] + nreads * t['step_ns']
+                if t['step_ns'] and nreads >= 2 and local_date(t['tz'], after) != ld:
+                    probe('midnight_crossed_inside_one_evaluation')
+                    feats.add('midnight-inside')
+                if nreads and not _has_today(spec['sheets'][0]['cells'][k]):
+                    probe('cell_without_TODAY_reads_the_clock')
+                if rep and row[k][0] != out and not _has_today(spec['sheets'][0]['cells'][k]):
+                    mism.append({'key': 'history-dependent-result', 'cell': k, 'formula': spec['sheets'][0]['cells'][k], 'instants': [ti, ti],
+                                 'dates': [ld.isoformat()] * 2, 'observed': out, 'expected': row[k][0], 'why': 'repeated query at one instant'})
+                row[k] = [out, nreads]
+        ent = {'t': ti, 'date': ld.isoformat(), 'row': row, 'epoch': epoch}
+        if history:
+            # pristine executions: a new executor per cell, the current overrides applied once, same instant
+            pr = {}
+            for k, cc, rr in cells:
+                if _has_today(spec['sheets'][0]['cells'][k]):
+                    continue
+                pex = Executor().set_executed_class(class_object=K)
+                if omap:
+                    pex.set_cells([Cell(0, c_, r_, dec_value(v_)) for (c_, r_), v_ in sorted(omap.items())])
+                out, _n = evaluate(pex, t, cc, rr)
+                pr[k] = out
+                if out != row[k][0]:
+                    mism.append({'key': 'history-dependent-result', 'cell': k, 'formula': spec['sheets'][0]['cells'][k], 'instants': [ti, ti],
+                                 'dates': [ld.isoformat()] * 2, 'observed': row[k][0], 'expected': out,
+                                 'why': 'used executor differs from a pristine executor with the same overrides',
+                                 'overrides': [[c_, r_, v_] for (c_, r_), v_ in sorted(omap.items())]})
+            ent['pristine'] = pr
+            probe('compared_with_pristine_executor', len(pr))
+        log.append(ent)
+    # oracle: identical outcome at all instants of one override epoch for every cell without TODAY()
     for k, cc, rr in cells:
         f = spec['sheets'][0]['cells'][k]
         if _has_today(f):
             continue
-        first = log[0]['row'][k][0]
-        for ent in log[1:]:
-            if ent['row'][k][0] != first:
-                mism.append({'key': 'clock-dependent-result', 'cell': k, 'formula': f, 'instants': [0, ent['t']],
-                             'dates': [log[0]['date'], ent['date']], 'observed': ent['row'][k][0], 'expected': first})
+        first = {}
+        for ent in log:
+            e0 = first.setdefault(ent['epoch'], ent)
+            if ent['row'][k][0] != e0['row'][k][0]:
+                mism.append({'key': 'clock-dependent-result', 'cell': k, 'formula': f, 'instants': [e0['t'], ent['t']],
+                             'dates': [e0['date'], ent['date']], 'observed': ent['row'][k][0], 'expected': e0['row'][k][0]})
                 break
-    return {'log': log, 'probes': probes, 'steps': len(cells) * len(plan['timeline']), 'mismatches': mism[:6],
+    seen = set()
+    uniq = []
+    for m in mism:
+        if (m['key'], m['cell']) not in seen:
+            seen.add((m['key'], m['cell']))
+            uniq.append(m)
+    return {'log': log, 'probes': probes, 'steps': len(cells) * len(plan['timeline']), 'mismatches': uniq[:6],
             'nontrivial': bool(feats), 'sig': core.digest([plan['spec'], plan['timeline']]), 'sim_time_s': sim_time,
             'digest': core.digest(log)}
 
@@ -774,6 +859,9 @@ def run(req, ctx):
 
 def describe(plan, m):
     if plan['mode'] == 'invariance':
+        if m.get('key') != 'clock-dependent-result':
+            return '%s: %s %s on %s: observed %s, expected %s (%s; overrides %s)' % (
+                m.get('key'), m.get('cell'), m.get('formula'), m['dates'][0], m['observed'], m['expected'], m.get('why', ''), m.get('overrides'))
         return '%s: %s gives %s on %s but %s on %s' % (m['cell'], m['formula'], m['expected'], m['dates'][0], m['observed'], m['dates'][1])
     return '%s (%s, %s class) at local date %s zone %s: observed %s, expected %s (start %s)' % (
         m['cell'], m['formula'], m['which'], m['local_date'], m['tz'], m['observed'], m['expected'], m.get('start'))
@@ -807,6 +895,21 @@ def shrink(plan):
                     p['spec']['sheets'][0]['cells'] = {k: v for k, v in cells.items() if k not in drop}
                     yield p
                 chunk //= 2
+        for i, t in enumerate(tl):
+            if t.get('set'):
+                p = copy.deepcopy(plan)
+                del p['timeline'][i]['set']
+                yield p
+                if len(t['set']) > 1:
+                    for j in range(len(t['set'])):
+                        p = copy.deepcopy(plan)
+                        del p['timeline'][i]['set'][j]
+                        yield p
+            if t.get('perm') or t.get('repeat'):
+                p = copy.deepcopy(plan)
+                p['timeline'][i].pop('perm', None)
+                p['timeline'][i].pop('repeat', None)
+                yield p
         for i, t in enumerate(tl):
             if t['tz'] != 'UTC0' or t['step_ns']:
                 p = copy.deepcopy(plan)
